@@ -149,6 +149,9 @@ func c20Run(x *vrt.X, sc c20Scenario, hashes map[string]uint64, info *prom.Confi
 			switch sc.FailKind {
 			case "status":
 				return rig.Answer{Status: 503}
+			case "status204":
+				// "not ready yet": an empty answer with a non-200 status below 400
+				return rig.Answer{Status: 204}
 			case "midbody":
 				cut := len(rig.Payload(2)) + 3
 				return rig.Answer{BodyReader: func() io.ReadCloser { return &breakReader{data: full, cut: cut} }}
@@ -508,7 +511,7 @@ func init() {
 								if !c.Thorough() && (gets == 3 || (nt == 2 && w == 2 && f1 == 2)) {
 									continue
 								}
-								fk := []string{"", "midbody", "status"}[len(scs)%3]
+								fk := []string{"", "midbody", "status", "status204"}[len(scs)%4]
 								if f1 == 0 && f2 == 0 {
 									fk = ""
 								}
